@@ -907,6 +907,8 @@ ghostvar fdao int
 ghostvar fdal int
 ghostvar fdf seq
 ghostvar fdfl int
+-- whether the route's printer accepted %w (only HelperForErrorf's does)
+ghostvar fdw bool
 pred Routed(k int, a []interface{}) = fdp == 1 && fdk == k && fdar == ref(a) && fdao == off(a) && fdal == len(a)
 
 ghostvar wcount int
@@ -923,7 +925,7 @@ func Fprintf(w io.Writer, format string, a ...interface{}) (n int, err error)
   public format
   inline
   may-panic
-  modifies alloc, memU, wcount, wlast, wlen, wn, werr, fdp, fdk, fdar, fdao, fdal, fdf, fdfl
+  modifies alloc, memU, wcount, wlast, wlen, wn, werr, fdp, fdk, fdar, fdao, fdal, fdf, fdfl, fdw
   ensures [C16] wcount == old(wcount) + 1 && n == wn && err == werr
   ensures [C01] WF(wlast, wlen, false)
   ensures [C03] LS(wlast, wlen)
@@ -934,12 +936,14 @@ func Fprintf(w io.Writer, format string, a ...interface{}) (n int, err error)
   ghost fdal = p.gdal after "p.doPrintf(format, a)"
   ghost fdf = p.gdf after "p.doPrintf(format, a)"
   ghost fdfl = len(p.gdf) after "p.doPrintf(format, a)"
+  ghost fdw = p.gw0 after "p.doPrintf(format, a)"
   ensures [C16] Routed(2, a) && sameView(fdf, format) && fdfl == len(format)
+  ensures [C15,C16] !fdw
 
 func Sprintf(format string, a ...interface{}) (s m.RedactableString)
   public format
   may-panic
-  modifies alloc, memU, fdp, fdk, fdar, fdao, fdal, fdf, fdfl
+  modifies alloc, memU, fdp, fdk, fdar, fdao, fdal, fdf, fdfl, fdw
   ensures [C01] WF(s, len(s), false) && clean(s, len(s))
   ensures [C03] LS(s, len(s))
   ghost fdp = p.gdp after "p.doPrintf(format, a)"
@@ -949,12 +953,14 @@ func Sprintf(format string, a ...interface{}) (s m.RedactableString)
   ghost fdal = p.gdal after "p.doPrintf(format, a)"
   ghost fdf = p.gdf after "p.doPrintf(format, a)"
   ghost fdfl = len(p.gdf) after "p.doPrintf(format, a)"
+  ghost fdw = p.gw0 after "p.doPrintf(format, a)"
   ensures [C16] Routed(2, a) && sameView(fdf, format) && fdfl == len(format)
+  ensures [C15,C16] !fdw
 
 func Fprint(w io.Writer, a ...interface{}) (n int, err error)
   inline
   may-panic
-  modifies alloc, memU, wcount, wlast, wlen, wn, werr, fdp, fdk, fdar, fdao, fdal, fdf, fdfl
+  modifies alloc, memU, wcount, wlast, wlen, wn, werr, fdp, fdk, fdar, fdao, fdal, fdf, fdfl, fdw
   ensures [C16] wcount == old(wcount) + 1 && n == wn && err == werr
   ensures [C01] WF(wlast, wlen, false)
   ensures [C03] LS(wlast, wlen)
@@ -967,7 +973,7 @@ func Fprint(w io.Writer, a ...interface{}) (n int, err error)
 
 func Sprint(a ...interface{}) (s m.RedactableString)
   may-panic
-  modifies alloc, memU, fdp, fdk, fdar, fdao, fdal, fdf, fdfl
+  modifies alloc, memU, fdp, fdk, fdar, fdao, fdal, fdf, fdfl, fdw
   ensures [C01] WF(s, len(s), false) && clean(s, len(s))
   ensures [C03] LS(s, len(s))
   ghost fdp = p.gdp after "p.doPrint(a)"
@@ -979,7 +985,7 @@ func Sprint(a ...interface{}) (s m.RedactableString)
 
 func Fprintln(w io.Writer, a ...interface{}) (n int, err error)
   may-panic
-  modifies alloc, memU, wcount, wlast, wlen, wn, werr, fdp, fdk, fdar, fdao, fdal, fdf, fdfl
+  modifies alloc, memU, wcount, wlast, wlen, wn, werr, fdp, fdk, fdar, fdao, fdal, fdf, fdfl, fdw
   ensures [C16] wcount == old(wcount) + 1 && n == wn && err == werr
   ensures [C01] WF(wlast, wlen, false)
   ensures [C03] LS(wlast, wlen)
@@ -992,7 +998,7 @@ func Fprintln(w io.Writer, a ...interface{}) (n int, err error)
 
 func Sprintln(a ...interface{}) (s m.RedactableString)
   may-panic
-  modifies alloc, memU, fdp, fdk, fdar, fdao, fdal, fdf, fdfl
+  modifies alloc, memU, fdp, fdk, fdar, fdao, fdal, fdf, fdfl, fdw
   ensures [C01] WF(s, len(s), false) && clean(s, len(s))
   ensures [C03] LS(s, len(s))
   ghost fdp = p.gdp after "p.doPrintln(a)"
@@ -1017,7 +1023,7 @@ func HelperForErrorf(format string, args ...interface{}) (s m.RedactableString, 
   ensures [C15] gnwOut == 1 && ggoodOut ==> err == gerrOut && !isnil(err)
   ensures [C15] !(gnwOut == 1 && ggoodOut) ==> isnil(err)
   may-panic
-  modifies alloc, memU, fdp, fdk, fdar, fdao, fdal, fdf, fdfl
+  modifies alloc, memU, fdp, fdk, fdar, fdao, fdal, fdf, fdfl, fdw
   ensures [C01] WF(s, len(s), false) && clean(s, len(s))
   ensures [C03] LS(s, len(s))
   ghost fdp = p.gdp after "p.doPrintf(format, args)"
@@ -1027,7 +1033,9 @@ func HelperForErrorf(format string, args ...interface{}) (s m.RedactableString, 
   ghost fdal = p.gdal after "p.doPrintf(format, args)"
   ghost fdf = p.gdf after "p.doPrintf(format, args)"
   ghost fdfl = len(p.gdf) after "p.doPrintf(format, args)"
+  ghost fdw = p.gw0 after "p.doPrintf(format, args)"
   ensures [C16] Routed(2, args) && sameView(fdf, format) && fdfl == len(format)
+  ensures [C15,C16] fdw
 
 func EscapeBytes(s []byte) (r m.RedactableBytes)
   modifies alloc
@@ -1110,7 +1118,7 @@ func (p *pp) UnsafeRune(r rune)
 func (p *pp) Print(args ...interface{})
   requires PI(p) && WP(p.fmt)
   may-panic
-  modifies p, alloc, memU, fdp, fdk, fdar, fdao, fdal, fdf, fdfl
+  modifies p, alloc, memU, fdp, fdk, fdar, fdao, fdal, fdf, fdfl, fdw
   ensures-always PI(p) && Same(p)
   ensures Kept(p)
   ghost fdp = np.gdp after "np.doPrint(args)"
@@ -1124,7 +1132,7 @@ func (p *pp) Printf(format string, arg ...interface{})
   public format
   requires PI(p) && WP(p.fmt)
   may-panic
-  modifies p, alloc, memU, fdp, fdk, fdar, fdao, fdal, fdf, fdfl
+  modifies p, alloc, memU, fdp, fdk, fdar, fdao, fdal, fdf, fdfl, fdw
   ensures-always PI(p) && Same(p)
   ensures Kept(p)
   ghost fdp = np.gdp after "np.doPrintf(format, arg)"
@@ -1134,5 +1142,7 @@ func (p *pp) Printf(format string, arg ...interface{})
   ghost fdal = np.gdal after "np.doPrintf(format, arg)"
   ghost fdf = np.gdf after "np.doPrintf(format, arg)"
   ghost fdfl = len(np.gdf) after "np.doPrintf(format, arg)"
+  ghost fdw = np.gw0 after "np.doPrintf(format, arg)"
   ensures [C16] Routed(2, arg) && sameView(fdf, format) && fdfl == len(format)
+  ensures [C15,C16] !fdw
 @*/
